@@ -498,7 +498,8 @@ WHSP characters (ASCII #32). For example:
 	"the quick brown fox"
 
 This function also removes any LEADING or TRAILING WHSP
-characters using the strings.TrimSpace alias trimS.
+(or HTAB) characters; other white space (e.g.: U+00A0, a
+newline) belongs to the value and is kept as it is.
 
 This function, when combined with the act of replacing
 all newline (ASCII #10, "\n") characters with a single
@@ -507,7 +508,7 @@ indented "block value" into a single line value more
 cleanly.
 */
 func condenseWHSP(b string) string {
-	b = trimS(b)
+	b = strings.Trim(b, " \t")
 
 	var last bool // previous char was WHSP or HTAB.
 	var builder strings.Builder
